@@ -69,6 +69,33 @@ Theorem C15_after_fill : forall i h f p,
 Proof. exact after_fill. Qed.
 Print Assumptions C15_after_fill.
 
+(** The instrument's current price is determined by the delivered market events alone, "latest
+    wins per kind, top of book preferred": after ANY delivery list (stale, duplicate, equal and
+    cross-kind out-of-order timestamps included) price() is the volume-weighted mid of a
+    top-of-book update with the greatest exchange timestamp (the default book counting as time 0
+    with no levels) when that book has both sides, else the price of a priced public trade with
+    the greatest timestamp, else none. With equal timestamps any of the tied deliveries is
+    acceptable (the code keeps the first). Hypothesis: top-of-book events carry
+    last_update_time = time_exchange. *)
+Theorem C15_price_latest_wins : forall h, Forall mevent_wf h ->
+  exists l last,
+    is_latest ((0%Z, l1_default) :: l1_deliveries h) (l1_time l, l) /\
+    match last with
+    | None => trade_deliveries h = []%list
+    | Some d => is_latest (trade_deliveries h) d
+    end /\
+    md_price (md_run h) = ref_price l last.
+Proof. exact price_latest_wins. Qed.
+Print Assumptions C15_price_latest_wins.
+
+(** ... and the market data of an instrument state is that of its market events: fills never
+    touch it. Together with [C15_tracks_latest_price] (whose reference price is [md_price] of this
+    data after the last priced market event): the unrealised PnL is the estimate at a price
+    computed from the newest delivered market data, never from an older one. *)
+Theorem C15_market_data_of_history : forall h, is_md (irun h) = md_run (market_events h).
+Proof. exact irun_md. Qed.
+Print Assumptions C15_market_data_of_history.
+
 (** Inside the known class the code stores 0, the reference price is the position's entry price
     and the documented estimate there is minus the entry fees: the deviation is exactly the
     (pro-rata) fee of the opening fill, so it vanishes iff that fee is 0. *)
